@@ -101,6 +101,12 @@ def case_strategy(draw):
             # containers, objects with __len__ == 0) are components too
             'falsy': draw(st.lists(st.sampled_from([False, False, True]),
                                    min_size=4, max_size=4)),
+            # components carrying their own name (the @named decorator sets
+            # __component_name__): registering them with the default name
+            # registers them under that name (seed C16g)
+            'named': draw(st.lists(st.sampled_from([None, None, None, 'a',
+                                                    'b']),
+                                   min_size=4, max_size=4)),
             'ops': ops}
 
 
@@ -173,6 +179,9 @@ def run_case(case, cfg, out):
             pool[(key, variant)] = cls(key, variant)
             pool[(key, variant)].falsy = (case.get('falsy') or
                                           [False] * 4)[key]
+            nm = (case.get('named') or [None] * 4)[key]
+            if nm is not None:
+                pool[(key, variant)].__component_name__ = nm
         return pool[(key, variant)]
 
     objs = []
@@ -410,14 +419,19 @@ def _history(case, out, env):
             _, cref, p, name, info, event, use_factory = op
             c = comp_of(cref)
             prov = provs[p]
+            asked = name
+            if name == '' and getattr(c, '__component_name__', ''):
+                name = c.__component_name__
+                op = [kind, cref, p, name, info, event, use_factory]
+                out.tag('name_inferred')
             old = U.get((prov, name))
             factory = None
             if use_factory:
                 factory = lambda c=c: c  # noqa
-                comps.registerUtility(None, prov, name, info, event,
+                comps.registerUtility(None, prov, asked, info, event,
                                       factory=factory)
             else:
-                comps.registerUtility(c, prov, name, info, event)
+                comps.registerUtility(c, prov, asked, info, event)
             if old is not None and old[0] == c and old[1] == info:
                 if not expect_events([[]], what + ' (no-op)'):
                     return
@@ -467,9 +481,14 @@ def _history(case, out, env):
             _, cref, req, p, name, info, event = op
             f = comp_of(cref)
             required = tuple(reqs[i] for i in req)
+            asked = name
+            if name == '' and getattr(f, '__component_name__', ''):
+                name = f.__component_name__
+                op = [kind, cref, req, p, name, info, event]
+                out.tag('name_inferred')
             key = (required, provs[p], name)
             same = key in A and A[key][0] is f and A[key][1] == info
-            comps.registerAdapter(f, required, provs[p], name, info, event)
+            comps.registerAdapter(f, required, provs[p], asked, info, event)
             if not expect_events(([['R'], []] if same else [['R']])
                                  if event else [[]], what):
                 return
